@@ -196,17 +196,19 @@ var props = map[string]*PropSpec{
 	},
 	"C06": {
 		Level:        "exploration",
-		Scens:        []ScenSpec{{ID: "C06", QuickRuns: 1000, QuickSecs: 90, ThoroughRuns: 100000, ThoroughSecs: 900, CrashRule: "R5", HangRule: ""}},
-		CoverageRule: "each run = a generated Queue processor (queue_size 1-4, ttl 1-5 s, optional priority groups) on a fixed-window quota (max 1-2 per 1-3 s) in the real streams engine; 2-10 arrivals with priorities, clock targets on/next to the 100 ms processing ticks, quota window ends and TTL expiries, stalls of request goroutines at instrumented lock sites while time passes, context cancel at a random step; non-trivial = more arrivals than the quota allows per window and at least one grant; distinct = schedule signatures among non-trivial runs",
+		Scens:        []ScenSpec{{ID: "C06", QuickRuns: 1500, QuickSecs: 120, ThoroughRuns: 100000, ThoroughSecs: 900, CrashRule: "R5", HangRule: ""}},
+		CoverageRule: "each run = a generated Queue processor (queue_size 1-4, ttl 1-5 s, optional priority groups) on a fixed-window quota (max 1-2 per 1-5 s) in the real streams engine; 2-10 arrivals with priorities, clock targets on/next to the 100 ms processing ticks, quota window ends and TTL expiries, stalls of request goroutines at instrumented lock sites while time passes, context cancel at a random step; in a third of the runs the engine's own goroutines (processing loop, TTL watcher, removal) are scheduled at lock sites too, the loop is driven on until it holds a waiting request and the clock is moved to that request's expiry (TTL elapsing inside one quota check), and stalling the loop or the watcher across a clock jump is an injected fault; non-trivial = more arrivals than the quota allows per window and at least one grant; distinct = schedule signatures among non-trivial runs",
 		Assumptions: []string{
-			"scheduling slack for a verdict is 1 s beyond the TTL (two processing ticks plus watcher granularity); a stall imposed by the simulator suspends the deadline for that request",
+			"scheduling slack for a verdict is 300 ms (three processing ticks) of time in which neither the processing loop nor the TTL watcher is stalled by the simulator; stall intervals that begin before that are waited out (chained); a stall of the request's own goroutine suspends its deadline",
+			"order is judged at the decision point: when the loop takes a request off the heap (mq.pop, under the queue lock) for the attempt that admits it, no better-ranked request is in the heap; rank = (priority, instant of first push), equal instants are unordered",
+			"a grant needs a quota admission of its own: a counted fixed-window increment for that request after its last pop (fw.inc event)",
 			"arrival order within one priority is the order in which requests entered the queue (queue.enqueued events)",
 			"under the verif build tag the TTL watcher's zero-length wait gets +1 ns (verifhook.TimerSlack): on a fake clock timers fire exactly on time and the watcher's `now.After(expireAt)` poll would otherwise spin at one instant",
 			"requests arriving after shutdown are outside the property",
 		},
 		Real:         []string{"streams.Stream", "Queue processor incl. processing loop, RequestWatcher (TTL), removal goroutines", "in-memory shared priority queue", "fixed-window quota", "GenerateResponse"},
 		Stub:         []string{"HAProxy/SPOE transport", "otel meters (disabled)"},
-		ExpectProbes: []string{"context_cancel", "stall_at_lock_site"},
+		ExpectProbes: []string{"context_cancel", "stall_at_lock_site", "engine_goroutine_stalled_at_lock_site", "ttl_elapsed_while_loop_holds_request"},
 	},
 	"C02": {
 		Level:        "exploration",
